@@ -146,7 +146,16 @@ func prop() Prop {
 	if !ok {
 		fatal2("unknown property %q", *fProp)
 	}
+	warm(p)
 	return p
+}
+
+// warm lets a property compute reference data on untouched package state,
+// before the first run of the process.
+func warm(p Prop) {
+	if w, ok := p.(interface{ Warmup() }); ok {
+		w.Warmup()
+	}
 }
 
 // execOne generates and executes run index idx.
@@ -372,6 +381,7 @@ func runReplay(t *testing.T) {
 	if !ok {
 		fatal2("unknown property %q in plan", plan.Property)
 	}
+	warm(p)
 	if RaceBuild {
 		_ = os.WriteFile(*fOut+".progress", []byte(fmt.Sprint(plan.Index)), 0o644)
 	}
@@ -450,6 +460,7 @@ func runMinimise(t *testing.T) {
 	if plan.Expect == nil || plan.Expect.Class == "" {
 		fatal2("plan has no expected class")
 	}
+	warm(p)
 	class := plan.Expect.Class
 	tmp := *fOut + ".min"
 	test := func(c *Plan) bool { return reproduces(t, p, c, class, tmp) }
